@@ -342,7 +342,9 @@ func TestPropFirstBytes(t *testing.T) {
 		// user comments inside and after annotations, glued roots (whatever of these the library accepts is judged)
 		"12 // {min: 1 ### c ### }", "12 // {min: 1} ### c ###", "12 /* {min: 1 ### c ### } */", "12 /* {min: 1 # c\n} */", "\"s\" // {minLength: 1 ### c ###, maxLength: 2}", "12// {min: 1}",
 		"12/* {min: 1} */", "12# c", "\"s\"// n", "true# c", "null/* n */", "{}// n", "[]# c", "@a// n", "@a# c", "@a|@b// n", "{ // {additionalProperties: true ### c ###}\n}",
-		"[ // {minItems: 0 ### c ###}\n]", "{\n  \"a\": 1 // {min: 1 ### c ### }\n}", "1 // n ### c ###", "1 ### c ### // n", "1 ### a ### ### b ###"}
+		"[ // {minItems: 0 ### c ###}\n]", "{\n  \"a\": 1 // {min: 1 ### c ### }\n}", "1 // n ### c ###", "1 ### c ### // n", "1 ### a ### ### b ###",
+		// a rules annotation that ends in a bare dash, comments made of hashes only
+		"1 // {min: 0} -", "1 // {min: 0} - ", "[] // {minItems: 0} -\t", "{} // {} -", "1 /* {min: 0} - */", "{}\n#####", "1 #####", "{} ######", "1\n#####\n", "[]\n###\n###", "1 # #", "1 #\t"}
 	var n, nt, bad int64
 	idx := 0
 	for _, r := range roots {
